@@ -87,6 +87,54 @@ def visible_slots(gwy, slots) -> list[str]:
     return out
 
 
+LIFE_Q: list = []
+LIVE_Q: list = []
+
+
+def judge_by_kind(chk: Check) -> None:
+    """A default snapshot holds no packet older than twice the lifetime of its kind (+3 s) - the lifetime being what the
+    model of pkt_lifespan gives the frame on its own, not what this process's library says of it now."""
+    from datetime import datetime as dt
+
+    from ..common import esc
+
+    frames = sorted({f for f, *_ in LIFE_Q})
+    outs = Model().run(["recv.file\tTrue\t" + esc("045 " + f) for f in frames])
+    life = {}
+    for f, o in zip(frames, outs):
+        p = o.split("\t")
+        if p[0] == "packet" and p[-1] not in ("False", "True"):
+            life[f] = int(p[-1])
+    seen = set()
+    for f, k, now, rep in LIFE_Q:
+        if f not in life:
+            continue
+        chk.count("snapshot.lifetime_by_kind.judged")
+        age = (now - dt.fromisoformat(k)) / td(microseconds=1)
+        if age >= 2 * life[f] + 3_000_000 and (f, k) not in seen:
+            seen.add((f, k))
+            key = "c16.snapshot.expired.313F" if f[37:41] == "313F" else "c16.snapshot.expired.by-kind"
+            chk.violation(key, f"snapshot (include_expired=False) holds {k} {f!r}, {age / 1e6:.0f} s old: a packet of its kind lives {life[f] / 1e6:.0f} s "
+                          f"(gone from a snapshot after twice that + 3 s)", rep)
+    LIFE_Q.clear()
+    frames = sorted({f for f, *_ in LIVE_Q})
+    outs = Model().run(["recv.file\tTrue\t" + esc("045 " + f) for f in frames])
+    for f, o in zip(frames, outs):
+        p = o.split("\t")
+        if p[0] == "packet" and p[-1] not in ("False", "True"):
+            life[f] = int(p[-1])
+    for f, k, now, rep in LIVE_Q:
+        if f not in life:
+            continue
+        chk.count("snapshot.lifetime_by_kind.judged_absent")
+        age = (now - dt.fromisoformat(k)) / td(microseconds=1)
+        if 0 <= age < life[f] and (f, k) not in seen:
+            seen.add((f, k))
+            chk.violation("c16.snapshot.live-left-out.by-kind", f"the default snapshot leaves out {k} {f!r} (held: the complete snapshot has it), {age / 1e6:.0f} s old: "
+                          f"a packet of its kind lives {life[f] / 1e6:.0f} s", rep)
+    LIVE_Q.clear()
+
+
 def check_packets(chk: Check, pkts: dict, inc: bool, now, rep) -> None:
     from ramses_tx.message import Message
     from ramses_tx.packet import Packet
@@ -110,6 +158,8 @@ def check_packets(chk: Check, pkts: dict, inc: bool, now, rep) -> None:
             return
         if not inc:
             msg._gwy = G()
+            if not (str(msg.code) == "1F09"):
+                LIFE_Q.append((v[4:] if v[3:4] == " " else v, k, now, rep))     # judged by the lifetime of its kind, after the run
             if msg._expired:
                 key = "c16.snapshot.expired.313F" if str(msg.code) == "313F" else "c16.snapshot.expired"
                 chk.violation(key, f"snapshot (include_expired=False) contains an expired packet: {k} {v!r}", rep)
@@ -272,6 +322,14 @@ def run(chk: Check) -> None:
             corpus.append(([f" I --- 01:145038 --:------ 01:145038 {code} 003 01{a}", " I --- 01:145038 --:------ 01:145038 1F09 003 FF0532",
                             f" I --- 01:145038 --:------ 01:145038 {code} 009 00{a}01{a}02{a}", f" I --- 01:145038 --:------ 01:145038 {code} 003 01{b}",
                             " I --- 01:145038 --:------ 01:145038 000A 006 011001F40DAC"], [0.5, 30.0, 0.1, 2.0, 20.0]))
+        # an OpenTherm bridge answers with its configuration (good for hours), then its status and a temperature (good for minutes);
+        # 25 minutes on the short-lived replies are gone from a default snapshot, the configuration is not
+        def ot(i: int) -> str:
+            par = (bin(0x40).count("1") + bin(i).count("1")) % 2
+            return f"RP --- 10:067219 18:006402 --:------ 3220 005 00{(0x40 | (0x80 if par else 0)):02X}{i:02X}0000"
+
+        corpus.append(([ot(0x03), ot(0x00), ot(0x19), " I --- 01:145038 --:------ 01:145038 1F09 003 FF0532"], [0.5, 1.0, 1.0, 1500.0]))
+        corpus.append(([ot(0x00), ot(0x03), ot(0x19), " I --- 01:145038 --:------ 01:145038 1F09 003 FF0532"], [0.5, 1.0, 1.0, 1500.0]))
         n_plain_corpus = len(corpus)
         for ep in range(n_ep + len(corpus)):
             fixed_gaps = None
@@ -338,6 +396,14 @@ def run(chk: Check) -> None:
                 chk.evaluations += 1
                 rep = {**rep0, "at": case["at"], "include_expired": case["inc"]}
                 A1 = case["pktsA"]
+                if case["inc"]:
+                    # ... and the converse: what the complete snapshot holds and the default one (taken just before) does not
+                    # is past the lifetime of its kind
+                    prev = next((c for c in res["cases"] if c["at"] == case["at"] and not c["inc"]), None)
+                    if prev is not None and isinstance(prev.get("pktsA"), dict):
+                        for k, v in A1.items():
+                            if k not in prev["pktsA"] and v[41:45] != "1F09":
+                                LIVE_Q.append((v[4:] if v[3:4] == " " else v, k, prev["now"], {**rep, "include_expired": False}))
                 if A1:
                     chk.nontrivial.add((tuple(h), case["at"], case["inc"]))
                 chk.count("snapshot_packets", len(A1))
@@ -452,6 +518,7 @@ def run(chk: Check) -> None:
     for r, a, b in zip(key_reqs, key_impl, Model().run(key_reqs)):
         if a != b:
             chk.divergence("log.iso", {"req": r}, a, b)
+    judge_by_kind(chk)
     outs = Model().run(reqs)
     for r, a, b, m in zip(reqs, impl, outs, meta):
         got = b.split("\t")
